@@ -145,9 +145,9 @@ def main():
                 patch = f"{d}/{x}.rebased.diff" if os.path.exists(f"{d}/{x}.rebased.diff") else f"{d}/{x}.diff"
                 if os.path.exists(patch):
                     todo.append((pid + x, pid, patch, f"{d}/demo_{x}.py", f"{d}/NOTES.md"))
-    elif any(a in sys.argv for a in ("--from-tmp2", "--from-tmp3", "--from-tmp4", "--from-tmp5", "--from-tmp6", "--from-tmp7", "--from-tmp8", "--from-tmp9")):
+    elif any(a in sys.argv for a in ("--from-tmp2", "--from-tmp3", "--from-tmp4", "--from-tmp5", "--from-tmp6", "--from-tmp7", "--from-tmp8", "--from-tmp9", "--from-tmp10")):
         # later rounds: /tmp/mutants2/<pid>/{a,b}.diff are stored as <pid>c / <pid>d, /tmp/mutants3/... as e / f, /tmp/mutants4/... as g / h
-        rdir, letters = next((d, l) for a, d, l in (("--from-tmp2", "/tmp/mutants2", "cd"), ("--from-tmp3", "/tmp/mutants3", "ef"), ("--from-tmp4", "/tmp/mutants4", "gh"), ("--from-tmp5", "/tmp/mutants5", "ij"), ("--from-tmp6", "/tmp/mutants6", "kl"), ("--from-tmp7", "/tmp/mutants7", "mn"), ("--from-tmp8", "/tmp/mutants8", "op"), ("--from-tmp9", "/tmp/mutants9", "qr")) if a in sys.argv)
+        rdir, letters = next((d, l) for a, d, l in (("--from-tmp2", "/tmp/mutants2", "cd"), ("--from-tmp3", "/tmp/mutants3", "ef"), ("--from-tmp4", "/tmp/mutants4", "gh"), ("--from-tmp5", "/tmp/mutants5", "ij"), ("--from-tmp6", "/tmp/mutants6", "kl"), ("--from-tmp7", "/tmp/mutants7", "mn"), ("--from-tmp8", "/tmp/mutants8", "op"), ("--from-tmp9", "/tmp/mutants9", "qr"), ("--from-tmp10", "/tmp/mutants10", "st")) if a in sys.argv)
         for pid in sorted(os.listdir(rdir)):
             d = f"{rdir}/{pid}"
             if not os.path.isdir(d):
@@ -182,7 +182,7 @@ def main():
         needs = ""
         if os.path.exists(f"{dst}/NOTES.md"):
             txt = open(f"{dst}/NOTES.md").read()
-            letter = "A" if sid[-1] in "acegikmoq" else "B"
+            letter = "A" if sid[-1] in "acegikmoqs" else "B"
             m = re.search(rf"(?ms)^## Change {letter}\b(.*?)(?=^## |\Z)", txt)
             section = (m.group(0) if m else txt).strip()
             paras = [p.strip() for p in re.split(r"\n\s*\n", section)]
